@@ -14,67 +14,20 @@ so every theorem proved for `valid` holds a fortiori for the real class; the cor
 namespace FxVerif.Model.C03
 open FxVerif.Gen.C03
 
-/-! ## character classes -/
+/-! ## `ValidateBasic` (syntactic part), per claim type, for address class `k`
 
-def isHexChar (c : Char) : Bool := c.isDigit || ('a' ≤ c && c ≤ 'f') || ('A' ≤ c && c ≤ 'F')
+`validGen` is REGENERATED from the body of each `ValidateBasic` (Gen/C03.lean: the recognised checks in source order,
+`validateBasic` helpers inlined; an unrecognised statement is dropped, which only enlarges the class).  `valid` adds
+nothing to it except, for the one type with free-form text fields, the representation invariant of the model (a Go
+string is a byte string). -/
 
-/-- `hex.DecodeString(s)` succeeds (the empty string does) -/
-def isHexData (s : Str) : Bool := s.length % 2 == 0 && s.all isHexChar
-
-/-- base58 alphabet (Bitcoin/Tron): alphanumeric without `0 O I l` -/
-def isBase58Char (c : Char) : Bool := c.isAlphanum && c != '0' && c != 'O' && c != 'I' && c != 'l'
-
-/-- `^0x[0-9a-fA-F]{40}$`, length 42 (the EIP-55 checksum is not modelled) -/
-def isEthAddr (s : Str) : Bool := s.length == 42 && s.take 2 == ['0', 'x'] && (s.drop 2).all isHexChar
-
-/-- 34 base58 characters (the base58check checksum is not modelled) -/
-def isTronAddr (s : Str) : Bool := s.length == 34 && s.all isBase58Char
-
-def isExtAddr : AddrKind → Str → Bool
-  | .eth, s => isEthAddr s
-  | .tron, s => isTronAddr s
-  | .other, _ => false
-
-/-- superset of the strings `sdk.AccAddressFromBech32` accepts: non-empty, alphanumeric -/
-def isBech32ish (s : Str) : Bool := !s.isEmpty && s.all Char.isAlphanum
-
-/-- non-nil and non-negative `sdkmath.Int` -/
-def isNonNeg : Option Int → Bool
-  | some (Int.ofNat _) => true
-  | _ => false
-
-/-- representation invariant of the model: a Go string is a byte string, one `Char` per byte -/
-def isBytes (s : Str) : Bool := s.all fun c => c.toNat < 256
-
-/-! ## `ValidateBasic` (syntactic part), per claim type, for address class `k` -/
-
-def MsgSendToFxClaim.valid (k : AddrKind) (c : MsgSendToFxClaim) : Bool :=
-  isBech32ish c.BridgerAddress && isExtAddr k c.Sender && isExtAddr k c.TokenContract && isBech32ish c.Receiver
-  && isNonNeg c.Amount && isHexData c.TargetIbc && c.EventNonce != 0 && c.BlockHeight != 0
-
-def MsgBridgeCallClaim.valid (k : AddrKind) (c : MsgBridgeCallClaim) : Bool :=
-  c.TokenContracts.length == c.Amounts.length && c.TokenContracts.all (isExtAddr k)
-  && isBech32ish c.BridgerAddress && isExtAddr k c.Sender && isExtAddr k c.To && isExtAddr k c.Refund
-  && isNonNeg c.Value && isHexData c.Data && c.EventNonce != 0 && c.BlockHeight != 0
-  && isExtAddr k c.TxOrigin && isHexData c.Memo
-
-def MsgBridgeCallResultClaim.valid (k : AddrKind) (c : MsgBridgeCallResultClaim) : Bool :=
-  isBech32ish c.BridgerAddress && c.Nonce != 0 && c.EventNonce != 0 && c.BlockHeight != 0
-  && isExtAddr k c.TxOrigin && isHexData c.Cause
-
-def MsgSendToExternalClaim.valid (k : AddrKind) (c : MsgSendToExternalClaim) : Bool :=
-  isBech32ish c.BridgerAddress && isExtAddr k c.TokenContract && c.EventNonce != 0 && c.BlockHeight != 0
-  && c.BatchNonce != 0
-
+def MsgSendToFxClaim.valid (k : AddrKind) (c : MsgSendToFxClaim) : Bool := c.validGen k
+def MsgBridgeCallClaim.valid (k : AddrKind) (c : MsgBridgeCallClaim) : Bool := c.validGen k
+def MsgBridgeCallResultClaim.valid (k : AddrKind) (c : MsgBridgeCallResultClaim) : Bool := c.validGen k
+def MsgSendToExternalClaim.valid (k : AddrKind) (c : MsgSendToExternalClaim) : Bool := c.validGen k
 def MsgBridgeTokenClaim.valid (k : AddrKind) (c : MsgBridgeTokenClaim) : Bool :=
-  isBech32ish c.BridgerAddress && isExtAddr k c.TokenContract && isHexData c.ChannelIbc
-  && !c.Name.isEmpty && !c.Symbol.isEmpty && c.EventNonce != 0 && c.BlockHeight != 0
-  && isBytes c.Name && isBytes c.Symbol
-
-def MsgOracleSetUpdatedClaim.valid (k : AddrKind) (c : MsgOracleSetUpdatedClaim) : Bool :=
-  isBech32ish c.BridgerAddress && !c.Members.isEmpty
-  && c.Members.all (fun m => isExtAddr k m.ExternalAddress && m.Power != 0)
-  && c.EventNonce != 0 && c.BlockHeight != 0
+  c.validGen k && isBytes c.Name && isBytes c.Symbol
+def MsgOracleSetUpdatedClaim.valid (k : AddrKind) (c : MsgOracleSetUpdatedClaim) : Bool := c.validGen k
 
 /-- address class of a chain name (`externalAddressRouter`); `none` = "unrecognized cross chain name" -/
 def chainKind (name : Str) : Option AddrKind := chains.lookup (String.ofList name)
